@@ -472,6 +472,9 @@ func vGarbage(name string, lo, hi int) []byte {
 	return b
 }
 
+// vYield: a scheduling point (natively runtime.Gosched; nothing for the solver, which runs vInterleaved bodies in sequence)
+func vYield() { runtime.Gosched() }
+
 // vScribble: the owner of a byte slice overwrites its contents (whole capacity)
 func vScribble(b []byte) {
 	b = b[:cap(b)]
